@@ -55,7 +55,9 @@ func faultString(fs []fault) string {
 
 // runC09 runs one history; returns the writer (its log) for further reading
 func runC09(o *out, id int, c c09case) *logWriter {
-	w := &logWriter{faults: append([]fault{}, c.faults...)}
+	// the writer collector's histories end with their Close calls: the writer behind it honours Close (a Close that
+	// failed in its flush must leave the writer open for the next attempt)
+	w := &logWriter{faults: append([]fault{}, c.faults...), strict: c.kind == "wcoll"}
 	modelKind := c.kind
 	var coll ftdc.Collector
 	var wc io.WriteCloser
@@ -231,6 +233,8 @@ func c09Doc(schema byte, x int64) []elem {
 		return []elem{{"x", i(x)}, {"y", i(7)}}
 	case 'Z': // no metric at all: such samples are accepted, flushed and read back like any others
 		return []elem{{"s", &val{T: 0x02, B: []byte(fmt.Sprintf("only text %d", x%3))}}}
+	case 'E': // the empty document: five bytes, the shortest document there is
+		return []elem{}
 	case 'W': // wide: 80 int64 metrics, so that a chunk of 100 samples is well beyond 32 KiB
 		d := []elem{}
 		for k := int64(0); k < 80; k++ {
@@ -444,6 +448,12 @@ func init() {
 					c := c09case{kind: kind, n: n, faults: fs, tag: "fault", retry: true}
 					for i := 0; i < 2*n+2; i++ {
 						c.ops = append(c.ops, hop{op: 'A', doc: c09Doc('Z', int64(i))})
+					}
+					if len(fs) == 0 {
+						// ... and empty documents among them
+						for i := 0; i < n+1; i++ {
+							c.ops = append(c.ops, hop{op: 'A', doc: c09Doc('E', 0)})
+						}
 					}
 					if kind != "stream" {
 						c.ops = append(c.ops, hop{op: 'A', doc: c09Doc('A', 1)}, hop{op: 'A', doc: c09Doc('A', 2)})
